@@ -158,15 +158,6 @@ func (v *Vue) evaluateNodeAsElement(ctx VueContext, node *html.Node, depth int) 
 			return nil, err
 		}
 
-		for _, n := range loopNodes {
-			if err := v.evalVHtml(ctx, n); err != nil {
-				return nil, err
-			}
-			if _, err := v.evalAttributes(ctx, n); err != nil {
-				return nil, err
-			}
-		}
-
 		result = append(result, loopNodes...)
 		return result, nil
 	}
